@@ -637,12 +637,10 @@ func runPipe(c PipeCase) ev.Verdict {
 	for {
 		select {
 		case ck := <-rch:
-			if ck.err == nil {
-				if len(ck.b) > 0 && c.CloseBy == "client" {
-					return ev.Fail("%s: %d unexpected bytes after everything was read: %q", c.Flavour, len(ck.b), ck.b)
-				}
-
-				continue
+			// the parked read has returned (with an error or without: the statement only says it
+			// returns)
+			if ck.err == nil && len(ck.b) > 0 && c.CloseBy == "client" {
+				return ev.Fail("%s: %d unexpected bytes after everything was read: %q", c.Flavour, len(ck.b), ck.b)
 			}
 		case <-deadline:
 			return ev.Fail("%s: a Read parked when the transport was closed by the %s did not return within 5 s", c.Flavour, c.CloseBy)
